@@ -68,6 +68,7 @@ type bodyOpts struct {
 	quote   byte // closing delimiter that must be escaped: '"', '`', or 0 for heredoc
 	heredoc bool
 	indent  string // mandatory indentation after every newline (flexible heredoc)
+	label   string // heredoc closing label
 }
 
 // textAtom draws one literal-text atom that never starts an interpolation and
@@ -99,6 +100,11 @@ func (g *Gen) textAtom(o bodyOpts) string {
 		return "{" + g.pick("afterbrace", " ", "a", "}", "{ ", "1", "\\$")
 	case 9:
 		g.feat("string-newline")
+		if o.heredoc && o.label != "" && g.chance(1, 3, "labelprefix") {
+			// a body line that starts with the closing label followed by a name character is not the terminator
+			g.feat("heredoc-label-prefixed-line")
+			return g.pick("nl", "\n", "\r\n") + o.indent + o.label + g.pick("labelsuffix", "1 ", "x", "_ ", "2;", "é")
+		}
 		return g.pick("nl", "\n", "\r\n", "\r") + o.indent
 	case 10:
 		// backslash runs directly before a dollar/brace: odd run = literal, even run + real variable handled by the caller
@@ -196,22 +202,28 @@ func (g *Gen) text(o bodyOpts, n int, followedByInterp bool) string {
 	}
 	s := fixText(b.String(), o, followedByInterp)
 	if o.heredoc {
-		s = guardLabelLines(s, o.indent)
+		s = guardLabelLines(s, o.label)
 	}
 	return s
 }
 
-// guardLabelLines makes sure no line of a heredoc body starts with an
-// upper-case letter or underscore (closing labels are drawn from an
-// upper-case pool), so that the body cannot contain its own terminator.
-func guardLabelLines(s, indent string) string {
+// guardLabelLines makes sure no line of a heredoc body starts (after optional
+// blanks) with the closing label followed by something other than a name
+// character: that would terminate the heredoc (under one rule or the other).
+func guardLabelLines(s, label string) string {
+	if label == "" {
+		return s
+	}
 	var b strings.Builder
-	atLineStart := false
+	atLineStart := true
 	for i := 0; i < len(s); i++ {
 		c := s[i]
 		if atLineStart && c != ' ' && c != '\t' {
-			if (c >= 'A' && c <= 'Z') || c == '_' {
-				b.WriteByte('.')
+			if strings.HasPrefix(s[i:], label) {
+				rest := s[i+len(label):]
+				if rest == "" || !isNameChar(rest[0]) {
+					b.WriteByte('.')
+				}
 			}
 			atLineStart = false
 		}
@@ -502,7 +514,7 @@ func (g *Gen) Heredoc() ast.Vertex {
 	if flexible && g.flip("indent") {
 		indent = g.pick("indent", "  ", "\t", "    ", " ")
 	}
-	o := bodyOpts{heredoc: true, indent: indent}
+	o := bodyOpts{heredoc: true, indent: indent, label: label}
 	var parts []ast.Vertex
 	if nowdoc {
 		if g.chance(4, 5, "nonempty") {
